@@ -2563,8 +2563,10 @@ fn slice_vec(v: &Xvec, start: isize, end: isize) -> Xvec {
 }
 
 fn core_word_slice(xs: &mut State) -> Xresult {
-    let end = xs.pop_data()?.to_isize()?;
-    let start = xs.pop_data()?.to_isize()?;
+    // slice bounds clamp to the sequence, so any integer is acceptable
+    let clamp = |i: Xint| i.max(isize::MIN as Xint).min(isize::MAX as Xint) as isize;
+    let end = clamp(xs.pop_data()?.to_xint()?);
+    let start = clamp(xs.pop_data()?.to_xint()?);
     let indexed = xs.pop_data()?;
     let slice = match indexed.value() {
         Cell::Vector(v) => Cell::from(slice_vec(v, start, end)),
